@@ -77,6 +77,13 @@ def gen_cases(rng, tier):
               {"expr": "(x + a)**2 - x**2 - 2*a*x - a**2", "var": "x", "deg": 0, "powers": [0, 1, 2]},
               {"expr": "(a + b)*x - a*x - b*x", "var": "x", "deg": 0, "powers": [0, 1]},
               {"expr": "x*(x + 1) - x**2 - x + a - a", "var": "x", "deg": 0, "powers": [0, 1, 2]}]
+    # variables with LONGER names, next to coefficient symbols whose names are part of the variable's name (n in n_max, N in N1,
+    # a in lam): the variable is that one symbol, the others are coefficients
+    for var, co in (("n_max", "n"), ("N1", "N"), ("lam", "a"), ("xx", "x")):
+        cases += [{"expr": f"c*{var}**3 + {co}*{var} + 5", "var": var, "deg": 3, "powers": [0, 1, 3]},
+                  {"expr": f"{co}*{var}**2 + {co}", "var": var, "deg": 2, "powers": [0, 2]},
+                  {"expr": f"{co} + 1", "var": var, "deg": 0, "powers": [0]},
+                  {"expr": f"({var} + {co})**2 - {var}**2", "var": var, "deg": 1, "powers": [0, 1, 2]}]
     for c in ("5", "a", "a*b + 2", "7/2"):              # constants in x
         cases.append({"expr": c, "var": "x", "deg": 0, "powers": [0]})
     return cases
